@@ -1,0 +1,33 @@
+//go:build verif
+// +build verif
+
+package ige
+
+import "math/big"
+
+// Read-only access to the unexported IGE loops and key derivations for the
+// verification harness. Compiled only with the build tag "verif".
+
+func VerifDoAES256IGEencrypt(data, out, key, iv []byte) error {
+	return doAES256IGEencrypt(data, out, key, iv)
+}
+
+func VerifDoAES256IGEdecrypt(data, out, key, iv []byte) error {
+	return doAES256IGEdecrypt(data, out, key, iv)
+}
+
+func VerifGenerateTempKeys(nonceSecond, nonceServer *big.Int) (key, iv []byte) {
+	return generateTempKeys(nonceSecond, nonceServer)
+}
+
+func VerifEncryptMessageWithTempKeysRaw(msg []byte, nonceSecond, nonceServer *big.Int) []byte {
+	return encryptMessageWithTempKeys(msg, nonceSecond, nonceServer)
+}
+
+func VerifGenerateAESIGE(msgKey, authKey []byte, decode bool) (key, iv []byte) {
+	return generateAESIGE(msgKey, authKey, decode)
+}
+
+func VerifIsCorrectData(data []byte) error {
+	return isCorrectData(data)
+}
